@@ -282,6 +282,9 @@ def sparse_dot_product(ind1, data1, ind2, data2):
 
     result = 0.0
 
+    if dim1 == 0 or dim2 == 0:
+        return result
+
     i1 = 0
     i2 = 0
     j1 = ind1[i1]
